@@ -141,9 +141,25 @@ def match_known(known, prop, harness, check):
 
 # --------------------------------------------------------------------------
 def run_harness(spec, slot, prop, logdir, playback=False):
-    digest = core.prepare_tree(slot, real_zeroize=spec.get("real_zeroize", False))
-    cmd = core.kani_cmd(spec, slot, playback=playback)
+    tree_digest, crate_digests = core.prepare_tree(slot, real_zeroize=spec.get("real_zeroize", False))
+    digest = crate_digests.get(spec["crate"], tree_digest)
     log = os.path.join(logdir, spec["name"] + (".playback" if playback else "") + ".log")
+    if any("{CLI}" in u for u in spec.get("unwindset", [])):
+        # per-loop bounds name loops by mangled symbol, and the mangling of kestrel-cli's own symbols contains a crate
+        # disambiguator that depends on the dependency graph: discover it from a codegen-only build of this harness
+        spec = dict(spec)
+        cg = core.kani_cmd(dict(spec, unwindset=None, cbmc_args=None), slot) + ["--only-codegen"]
+        rc0, out0, _, _ = core.run_cmd(cg, slot.tree, core.kani_env(), 900, mem_gb=20, log=log + ".codegen")
+        dis = None
+        for base, dirs, files in os.walk(os.path.join(slot.target, "kani")):
+            for fn in files:
+                m = re.search(r"(Cs[0-9A-Za-z]+_7kestrel)\d+commands|(Cs[0-9A-Za-z]+_7kestrel)\d+keyring|(Cs[0-9A-Za-z]+_7kestrel)\d", fn)
+                if m and spec["name"] in fn:
+                    dis = next(g for g in m.groups() if g)
+        if dis is None:
+            raise core.InfraError("could not determine the crate disambiguator of kestrel-cli (codegen rc %s)" % rc0)
+        spec["unwindset"] = [u.replace("{CLI}", dis) for u in spec["unwindset"]]
+    cmd = core.kani_cmd(spec, slot, playback=playback)
     # Result reuse: a harness is a deterministic function of (working tree, harness sources, options). The digest
     # is recomputed from /repo's CURRENT tree on every run; if this very harness already ran on a byte-identical
     # tree (e.g. for another property a minute ago) its parsed result is reused instead of re-solving.
@@ -230,6 +246,9 @@ def select(plan, prop, tier, only=None):
         if prop not in h["props"]:
             continue
         if tier == "quick" and h.get("tier", "quick") != "quick":
+            continue
+        # a heavy harness may be quick-tier for its main properties only (`quick_props`) and thorough-tier for the others
+        if tier == "quick" and h.get("quick_props") is not None and prop not in h["quick_props"]:
             continue
         if only and not re.search(only, h["name"]):
             continue
